@@ -334,6 +334,23 @@ def r4(ctx):
             ctx.check(len(args) == 2 and args[0] == "self.session_key" and args[1].endswith(".client_pubkey"), "C02.R4", ch,
                       "ecdh_server(own ephemeral key, client public key)", "arguments", witness=args)
         got = {k.rsplit(".", 1)[1]: v for k, v in env.items() if "." in k and k.rsplit(".", 1)[1] in ("salt", "server_pubkey", "token") and not k.startswith("self.")}
+        # (fields given to the constructor by keyword: Serializable.__init__ stores the keyword arguments that name fields)
+        for k, v in env.items():
+            if "." in k or "HandshakeServerHelloMessage(" not in v:
+                continue
+            try:
+                e = ast.parse(v, mode="eval").body
+            except SyntaxError:
+                continue
+            if isinstance(e, ast.Call) and norm(e.func).endswith("HandshakeServerHelloMessage") and not e.args:
+                for kw in e.keywords:
+                    if kw.arg in ("salt", "server_pubkey", "token") and kw.arg not in got:
+                        got[kw.arg] = norm(kw.value)
+                si = ctx.fn("serializable:Serializable.__init__")
+                kwp = si.node.args.kwarg.arg if si.node.args.kwarg else None
+                sets = [c_ for lp in walk_own(si.node) if isinstance(lp, ast.For) and kwp and norm(lp.iter) == "%s.items()" % kwp and isinstance(lp.target, ast.Tuple) and len(lp.target.elts) == 2
+                        for c_ in ast.walk(lp) if isinstance(c_, ast.Call) and norm(c_.func) == "setattr" and [norm(a_) for a_ in c_.args] == ["self", norm(lp.target.elts[0]), norm(lp.target.elts[1])]]
+                ctx.check(len(sets) == 1, "C02.R4", si, "Serializable.__init__ stores its keyword arguments as attributes", "the reply's fields are given to the constructor by keyword")
         want = {"salt": env.get("self.session_salt"), "server_pubkey": "self.session_key.getPublicKey()", "token": env.get("self.token")}
         ctx.check(got == want and want["token"] is not None, "C02.R4", ch,
                   "reply carries the salt used, the ephemeral public key and the issued token", "reply fields", witness=got)
